@@ -138,7 +138,9 @@ def check_close_helper(rep, f_file, f_axlcomp):
                       "evaluating fileCloseOut with %s does not reach the (*fileError) call: a write error recorded on the stream "
                       "is dropped at the only place that turns it into a failure status"
                       % ("ferror(file) != 0 and fflush/fclose succeeding" if not sc1 else "only fclose(file) failing"))
-    ok = has_ferror and has_fclose and fclose_tested and indirect
+    # the scenario evaluation above decides whether both results are honoured; the syntactic "fclose result is an operand of a
+    # test" is only required when the scenarios could not be the deciding step
+    ok = has_ferror and has_fclose and indirect and (fclose_tested or (sc1 and sc2))
     if ok:
         rep.ok("O3", "fileCloseOut", sample={"calls": cs, "handler": "(*fileError)"})
     else:
